@@ -20,14 +20,14 @@ import (
 // C18 — Close and Drop are clean: idempotent, leak-free, scoped to one database.
 
 type CaseC18 struct {
-	Types    []string `json:"types"`     // 1-3 databases on the instance
-	Writes   []int    `json:"writes"`    // acknowledged local writes per database
-	Remote   []int    `json:"remote"`    // entries authored elsewhere per database
-	InFlight []string `json:"in_flight"` // per database: none | repl (replication with fetches parked at close time) | merged (replicated before)
-	Action   string   `json:"action"`    // close-store | close-store-twice | close-store-concurrent | drop | close-instance | close-instance-twice | close-instance-concurrent
-	Target   int      `json:"target"`
-	ReleaseBefore bool `json:"release_before"` // parked fetches are released before (true) or after the close call
-	MidWrite bool     `json:"mid_write"`      // a writer goroutine keeps writing while the close happens
+	Types         []string `json:"types"`     // 1-3 databases on the instance
+	Writes        []int    `json:"writes"`    // acknowledged local writes per database
+	Remote        []int    `json:"remote"`    // entries authored elsewhere per database
+	InFlight      []string `json:"in_flight"` // per database: none | repl (replication with fetches parked at close time) | merged (replicated before)
+	Action        string   `json:"action"`    // close-store | close-store-twice | close-store-concurrent | drop | close-instance | close-instance-twice | close-instance-concurrent
+	Target        int      `json:"target"`
+	ReleaseBefore bool     `json:"release_before"` // parked fetches are released before (true) or after the close call
+	MidWrite      bool     `json:"mid_write"`      // a writer goroutine keeps writing while the close happens
 	// LateHeads: after the close the author writes new entries and their heads are handed to the closed
 	// store (Sync after close) while its fetches would park: nothing may be left running for them
 	LateHeads bool `json:"late_heads,omitempty"`
@@ -362,9 +362,9 @@ func execC18(c CaseC18) *Outcome {
 			}
 		}
 		ops := map[string]func(){
-			"write after close":            func() { _, _ = writeReturningHash(ctx, s, c.Types[d], 0, 1, 9000) },
-			"view after close":             func() { _, _ = viewOf(s, c.Types[d]) },
-			"Load after close":             func() { _ = s.Load(ctx, -1) },
+			"write after close": func() { _, _ = writeReturningHash(ctx, s, c.Types[d], 0, 1, 9000) },
+			"view after close":  func() { _, _ = viewOf(s, c.Types[d]) },
+			"Load after close":  func() { _ = s.Load(ctx, -1) },
 			"Sync after close": func() {
 				hs, _ := cloneHeads(world.Heads(as[d]))
 				if c.LateHeads {
@@ -374,10 +374,10 @@ func execC18(c CaseC18) *Outcome {
 				}
 				_ = s.Sync(ctx, hs)
 			},
-			"LoadFromSnapshot after close": func() { _ = s.LoadFromSnapshot(ctx) },
-			"SaveSnapshot after close":     func() { _, _ = basestore.SaveSnapshot(ctx, s) },
+			"LoadFromSnapshot after close":  func() { _ = s.LoadFromSnapshot(ctx) },
+			"SaveSnapshot after close":      func() { _, _ = basestore.SaveSnapshot(ctx, s) },
 			"ReplicationStatus after close": func() { _ = s.ReplicationStatus().GetProgress() },
-			"Close after close":            func() { _ = s.Close() },
+			"Close after close":             func() { _ = s.Close() },
 		}
 		for _, name := range sortedKeys(ops) {
 			if err := guarded(name, ops[name]); err != nil {
